@@ -195,3 +195,22 @@ def hidden_deal_tree(rng, outcomes=12, depth=6, actions=3):
     names = {}
     t = {"c": None, "o": [[f2b(rng.uniform(0.5, 2.0)), go(depth, 1, ((), ()), k)] for k in range(outcomes)]}
     return t, tree_stats(t)
+
+
+def scale_payoffs(t, c):
+    """every terminal payoff multiplied by c (exact for a power of two within range)"""
+    if "t" in t:
+        return {"t": f2b(b2f(t["t"]) * c)}
+    n = dict(t)
+    if "o" in t:
+        n["o"] = [[w, scale_payoffs(ch, c)] for w, ch in t["o"]]
+    else:
+        n["a"] = [[a, scale_payoffs(ch, c)] for a, ch in t["a"]]
+    return n
+
+
+def tiny_unit(rng, t):
+    """the same game in a far-out payoff unit (exact power of two): every rule of the solvers is homogeneous in the
+    payoffs, so absolute tolerances hidden in the code (|x| <= f64::EPSILON treated as zero) show here"""
+    c = 2.0 ** rng.choice([-70, -70, -200, -40, 150])
+    return scale_payoffs(t, c), c
